@@ -1,6 +1,7 @@
 use crate::common::Emitter;
 pub mod c13;
 pub mod c14;
+pub mod c15;
 pub mod c16;
 pub mod c08;
 pub mod c05;
@@ -22,6 +23,7 @@ pub fn replay(prop: &str, line: &str, em: &mut Emitter) {
         "gsess" => gsess::run_case(&toks, em),
         "decomp" => c08::run_case(&toks, em),
         "seal" => c16::run_case(&toks, em),
+        "ntlm_auth" | "ts_chal" | "ts_validate" => c15::run_case(&toks, em),
         "x224_conn" | "gcc_ccr" | "lic" | "mcs_conn" | "sec_conn" => c05::run_case(&toks, em),
         _ => { let _ = prop; eprintln!("unknown op {}", toks[0]); }
     }
@@ -36,6 +38,8 @@ pub fn generate(prop: &str, thorough: bool, seed: u64, em: &mut Emitter) {
         "C18" => c18::generate(thorough, seed, part, em),
         "C02" => c05::generate_c02(thorough, seed, part, em),
         "C16" => c16::generate(thorough, seed, part, em),
+        "C15" => c15::generate_c15(thorough, seed, part, em),
+        "C07" => c15::generate_c07(thorough, seed, part, em),
         "C08" | "C09" => c08::generate(prop, thorough, seed, part, em),
         "C05" => c05::generate_c05(thorough, seed, part, em),
         "C06" => gsess::generate_c06(thorough, seed, part, em),
